@@ -17,8 +17,8 @@ type pgxRepository struct {
 const (
 	insertObjectStmt                                                                                      = "INSERT INTO objects (id, bucket_name, key, content_type, cache_control, content_disposition, content_encoding, content_language, expires, website_redirect_location, etag, checksum_crc32, checksum_crc32c, checksum_crc64nvme, checksum_sha1, checksum_sha256, checksum_type, size, version_id, is_delete_marker, is_latest, upload_status, upload_id, optimistic_lock_version, created_at, updated_at, storage_class) VALUES($1, $2, $3, $4, $5, $6, $7, $8, $9, $10, $11, $12, $13, $14, $15, $16, $17, $18, $19, $20, $21, $22, $23, $24, $25, $26, $27)"
 	insertObjectIfAbsentStmt                                                                              = "INSERT INTO objects (id, bucket_name, key, content_type, cache_control, content_disposition, content_encoding, content_language, expires, website_redirect_location, etag, checksum_crc32, checksum_crc32c, checksum_crc64nvme, checksum_sha1, checksum_sha256, checksum_type, size, version_id, is_delete_marker, is_latest, upload_status, upload_id, optimistic_lock_version, created_at, updated_at, storage_class) VALUES($1, $2, $3, $4, $5, $6, $7, $8, $9, $10, $11, $12, $13, $14, $15, $16, $17, $18, $19, $20, $21, $22, $23, $24, $25, $26, $27) ON CONFLICT DO NOTHING"
-	updateObjectByIdStmt                                                                                  = "UPDATE objects SET bucket_name = $1, key = $2, content_type = $3, cache_control = $4, content_disposition = $5, content_encoding = $6, content_language = $7, expires = $8, website_redirect_location = $9, etag = $10, checksum_crc32 = $11, checksum_crc32c = $12, checksum_crc64nvme = $13, checksum_sha1 = $14, checksum_sha256 = $15, checksum_type = $16, size = $17, version_id = $18, is_delete_marker = $19, is_latest = $20, upload_status = $21, upload_id = $22, storage_class = $23, optimistic_lock_version = optimistic_lock_version + 1, updated_at = $24 WHERE id = $25"
-	updateObjectByIdAndOptimisticLockVersionStmt                                                          = "UPDATE objects SET bucket_name = $1, key = $2, content_type = $3, cache_control = $4, content_disposition = $5, content_encoding = $6, content_language = $7, expires = $8, website_redirect_location = $9, etag = $10, checksum_crc32 = $11, checksum_crc32c = $12, checksum_crc64nvme = $13, checksum_sha1 = $14, checksum_sha256 = $15, checksum_type = $16, size = $17, version_id = $18, is_delete_marker = $19, is_latest = $20, upload_status = $21, upload_id = $22, storage_class = $23, optimistic_lock_version = optimistic_lock_version + 1, updated_at = $24 WHERE id = $25 AND optimistic_lock_version = $26"
+	updateObjectByIdStmt                                                                                  = "UPDATE objects SET bucket_name = $1, key = $2, content_type = $3, cache_control = $4, content_disposition = $5, content_encoding = $6, content_language = $7, expires = $8, website_redirect_location = $9, etag = $10, checksum_crc32 = $11, checksum_crc32c = $12, checksum_crc64nvme = $13, checksum_sha1 = $14, checksum_sha256 = $15, checksum_type = $16, size = $17, version_id = $18, is_delete_marker = $19, is_latest = $20, upload_status = $21, upload_id = $22, storage_class = $23, optimistic_lock_version = optimistic_lock_version + 1, updated_at = $24, created_at = $25 WHERE id = $26"
+	updateObjectByIdAndOptimisticLockVersionStmt                                                          = "UPDATE objects SET bucket_name = $1, key = $2, content_type = $3, cache_control = $4, content_disposition = $5, content_encoding = $6, content_language = $7, expires = $8, website_redirect_location = $9, etag = $10, checksum_crc32 = $11, checksum_crc32c = $12, checksum_crc64nvme = $13, checksum_sha1 = $14, checksum_sha256 = $15, checksum_type = $16, size = $17, version_id = $18, is_delete_marker = $19, is_latest = $20, upload_status = $21, upload_id = $22, storage_class = $23, optimistic_lock_version = optimistic_lock_version + 1, updated_at = $24, created_at = $25 WHERE id = $26 AND optimistic_lock_version = $27"
 	containsBucketObjectsByBucketNameStmt                                                                 = "SELECT id FROM objects WHERE bucket_name = $1"
 	findObjectsByBucketNameAndPrefixAndStartAfterOrderByKeyAscStmt                                        = "SELECT id, bucket_name, key, content_type, cache_control, content_disposition, content_encoding, content_language, expires, website_redirect_location, etag, checksum_crc32, checksum_crc32c, checksum_crc64nvme, checksum_sha1, checksum_sha256, checksum_type, size, version_id, is_delete_marker, is_latest, upload_status, upload_id, optimistic_lock_version, created_at, updated_at, storage_class FROM objects WHERE bucket_name = $1 AND key LIKE $2 || '%' AND key > $3 AND upload_status = $4 AND is_latest = TRUE AND is_delete_marker = FALSE ORDER BY key ASC"
 	findObjectsByBucketNameAndPrefixAndStartAfterOrderByKeyAscWithLimitStmt                               = "SELECT id, bucket_name, key, content_type, cache_control, content_disposition, content_encoding, content_language, expires, website_redirect_location, etag, checksum_crc32, checksum_crc32c, checksum_crc64nvme, checksum_sha1, checksum_sha256, checksum_type, size, version_id, is_delete_marker, is_latest, upload_status, upload_id, optimistic_lock_version, created_at, updated_at, storage_class FROM objects WHERE bucket_name = $1 AND key LIKE $2 || '%' AND key > $3 AND upload_status = $4 AND is_latest = TRUE AND is_delete_marker = FALSE ORDER BY key ASC LIMIT $5"
@@ -128,7 +128,12 @@ func (or *pgxRepository) SaveObject(ctx context.Context, tx *sql.Tx, object *obj
 		return err
 	}
 	object.UpdatedAt = time.Now().UTC()
-	res, err := tx.ExecContext(ctx, updateObjectByIdStmt, object.BucketName.String(), object.Key.String(), object.ContentType, object.CacheControl, object.ContentDisposition, object.ContentEncoding, object.ContentLanguage, object.Expires, object.WebsiteRedirectLocation, object.ETag, object.ChecksumCRC32, object.ChecksumCRC32C, object.ChecksumCRC64NVME, object.ChecksumSHA1, object.ChecksumSHA256, object.ChecksumType, object.Size, object.VersionID, object.IsDeleteMarker, object.IsLatest, object.UploadStatus, ptrutils.MapPtr(object.UploadId, mapUploadIdToString), object.StorageClass, object.UpdatedAt, object.Id.String())
+	if object.CreatedAt.IsZero() {
+		// A freshly built entity that reuses an existing row replaces the
+		// object's content: its creation time restarts.
+		object.CreatedAt = object.UpdatedAt
+	}
+	res, err := tx.ExecContext(ctx, updateObjectByIdStmt, object.BucketName.String(), object.Key.String(), object.ContentType, object.CacheControl, object.ContentDisposition, object.ContentEncoding, object.ContentLanguage, object.Expires, object.WebsiteRedirectLocation, object.ETag, object.ChecksumCRC32, object.ChecksumCRC32C, object.ChecksumCRC64NVME, object.ChecksumSHA1, object.ChecksumSHA256, object.ChecksumType, object.Size, object.VersionID, object.IsDeleteMarker, object.IsLatest, object.UploadStatus, ptrutils.MapPtr(object.UploadId, mapUploadIdToString), object.StorageClass, object.UpdatedAt, object.CreatedAt, object.Id.String())
 	if err != nil {
 		return err
 	}
@@ -176,7 +181,10 @@ func (or *pgxRepository) UpdateObjectByIdAndOptimisticLockVersion(ctx context.Co
 		return uploadId.String()
 	}
 	object.UpdatedAt = time.Now().UTC()
-	res, err := tx.ExecContext(ctx, updateObjectByIdAndOptimisticLockVersionStmt, object.BucketName.String(), object.Key.String(), object.ContentType, object.CacheControl, object.ContentDisposition, object.ContentEncoding, object.ContentLanguage, object.Expires, object.WebsiteRedirectLocation, object.ETag, object.ChecksumCRC32, object.ChecksumCRC32C, object.ChecksumCRC64NVME, object.ChecksumSHA1, object.ChecksumSHA256, object.ChecksumType, object.Size, object.VersionID, object.IsDeleteMarker, object.IsLatest, object.UploadStatus, ptrutils.MapPtr(object.UploadId, mapUploadIdToString), object.StorageClass, object.UpdatedAt, object.Id.String(), optimisticLockVersion)
+	if object.CreatedAt.IsZero() {
+		object.CreatedAt = object.UpdatedAt
+	}
+	res, err := tx.ExecContext(ctx, updateObjectByIdAndOptimisticLockVersionStmt, object.BucketName.String(), object.Key.String(), object.ContentType, object.CacheControl, object.ContentDisposition, object.ContentEncoding, object.ContentLanguage, object.Expires, object.WebsiteRedirectLocation, object.ETag, object.ChecksumCRC32, object.ChecksumCRC32C, object.ChecksumCRC64NVME, object.ChecksumSHA1, object.ChecksumSHA256, object.ChecksumType, object.Size, object.VersionID, object.IsDeleteMarker, object.IsLatest, object.UploadStatus, ptrutils.MapPtr(object.UploadId, mapUploadIdToString), object.StorageClass, object.UpdatedAt, object.CreatedAt, object.Id.String(), optimisticLockVersion)
 	if err != nil {
 		return nil, err
 	}
